@@ -1,0 +1,14 @@
+//go:build verif
+
+package mbapp
+
+// VerifBitMap exposes the unexported bitMap to the verification harness
+// (/verif/harness/cmd/timerreplay -mode bitmap).  Thin wrappers only.
+type VerifBitMap struct{ bm bitMap }
+
+func VerifNewBitMap(n int) VerifBitMap  { return VerifBitMap{newBitMap(n)} }
+func (b VerifBitMap) Set(i int, v bool) { b.bm.set(i, v) }
+func (b VerifBitMap) Get(i int) bool    { return b.bm.get(i) }
+func (b VerifBitMap) AllSet() bool      { return b.bm.allSet() }
+func (b VerifBitMap) Len() int          { return b.bm.len() }
+func (b VerifBitMap) Buf() []byte       { return append([]byte{}, b.bm.buf...) }
